@@ -594,6 +594,12 @@ func oracleSort(c Case) vkit.Outcome {
 	}
 	wantPerm := bitsOf(input)
 	sort.Strings(wantPerm)
+	nanNote := ""
+	for _, b := range wantPerm {
+		if b == "NaN" {
+			nanNote = " (array contains NaN)"
+		}
+	}
 	stable := append([]any(nil), input...)
 	sort.SliceStable(stable, func(i, j int) bool { return elemLess(stable[i], stable[j]) })
 	for _, w := range []struct {
@@ -610,12 +616,21 @@ func oracleSort(c Case) vkit.Outcome {
 		if strings.Join(gotPerm, "\x01") != strings.Join(wantPerm, "\x01") {
 			return failf(out, sig+"not a permutation of the input", fmt.Sprintf("%s: %s = %s", desc, which, show(g)), "a permutation of the input")
 		}
-		for i := 0; i+1 < len(vs); i++ {
-			if elemLess(vs[i+1], vs[i]) {
-				return failf(out, sig+"not ordered", fmt.Sprintf("%s: %s = %s (element %d > element %d)", desc, which, show(g), i, i+1), "non-decreasing order")
+		// Ordered: the elements other than NaN are in non-decreasing order.
+		// Where the NaNs go is not judged (Go's sort package puts them first;
+		// the statement only says "ordered").
+		var real []any
+		for _, v := range vs {
+			if elemBits(v) != "NaN" {
+				real = append(real, v)
 			}
 		}
-		if fn == "Stable" && strings.Join(bitsOf(vs), "\x01") != strings.Join(bitsOf(stable), "\x01") {
+		for i := 0; i+1 < len(real); i++ {
+			if elemLess(real[i+1], real[i]) {
+				return failf(out, sig+"not ordered"+nanNote, fmt.Sprintf("%s: %s = %s", desc, which, show(g)), "elements (other than NaN) in non-decreasing order")
+			}
+		}
+		if fn == "Stable" && nanNote == "" && strings.Join(bitsOf(vs), "\x01") != strings.Join(bitsOf(stable), "\x01") {
 			return failf(out, sig+"not stable", fmt.Sprintf("%s: %s = %s", desc, which, show(g)), "equal elements (-0 and +0) keep their input order: "+fmt.Sprint(stable))
 		}
 	}
@@ -821,6 +836,11 @@ func genSprintf(t *rapid.T) Case {
 	}
 	verb := string(verbs[rapid.IntRange(0, len(verbs)-1).Draw(t, "verb")])
 	flags := rapid.SampledFrom([]string{"", "", "", "-", "+", "0", " ", "#", "+0", "-#"}).Draw(t, "flags")
+	if verb == "v" {
+		// %#v asks for Go syntax; Ego deliberately maps it to %v
+		// (internal/runtime/fmt/print.go), so it is not a mirror.
+		flags = strings.ReplaceAll(flags, "#", "")
+	}
 	width := rapid.SampledFrom([]string{"", "", "1", "5", "12"}).Draw(t, "width")
 	prec := rapid.SampledFrom([]string{"", "", ".0", ".2", ".10"}).Draw(t, "prec")
 	format := rapid.SampledFrom([]string{"", "[", "x=", "100%% "}).Draw(t, "pre") + "%" + flags + width + prec + verb + rapid.SampledFrom([]string{"", "]", "\n", "é"}).Draw(t, "post")
